@@ -95,6 +95,8 @@ func genStop(c *ctx) {
 		bad      []string
 		outcome  string
 		dur      time.Duration
+		keys     [][]byte // who == client-keys: what is typed after the Ctrl-C that opens the question
+		choice   int      // ... and the entry that sequence selects (0 keep, 1 delete, 2 continue)
 	}
 	var cases []*sc
 	nb := c.pick(6, 16)
@@ -107,18 +109,79 @@ func genStop(c *ctx) {
 		cfg.hookTunnel = true // ... whose writes are stop boundaries like the in-band ones
 		tops := stopTree(rng, root, cfg.directory)
 		counts := baselineCounts(cfg, tops, root)
-		per := c.pick(10, 80)
+		per := c.pick(15, 90)
 		for k := 0; k < per; k++ {
 			s := &sc{cfg: cfg, tops: tops, root: root}
-			s.who = []string{"client", "server", "client-prompt"}[c.rng.Intn(3)]
+			// stratified: every way of stopping occurs in every base
+			s.who = []string{"client", "server", "client-prompt", "client-keys", "client-after-continue"}[k%5]
 			s.del = s.who != "server" && c.rng.Intn(2) == 0
+			if s.who == "client-keys" {
+				// the stop question driven by arbitrary navigation keys: Ctrl-C opens it, some moves,
+				// then Enter (the entry under the cursor) / Ctrl-C (stop and keep, from anywhere) /
+				// q (continue, from anywhere); entries: 0 keep, 1 delete, 2 continue; no wrap-around.
+				// Every (entry under the cursor, final key) pair occurs: the moves first wander, then
+				// go up to the top and down to the target entry
+				combo := (k/5 + 2*b) % 9
+				target := combo % 3
+				nexts := [][]byte{{'\t'}, {'j'}, {0x0e}, {0x1b, '[', 'B'}}
+				prevs := [][]byte{{'k'}, {0x10}, {0x1b, '[', 'A'}, {0x1b, '[', 'Z'}}
+				cur := 0
+				press := func(k []byte, next bool) {
+					s.keys = append(s.keys, k)
+					if next && cur < 2 {
+						cur++
+					} else if !next && cur > 0 {
+						cur--
+					}
+				}
+				for n := c.rng.Intn(3); n > 0; n-- {
+					if c.rng.Intn(2) == 0 {
+						press(nexts[c.rng.Intn(4)], true)
+					} else {
+						press(prevs[c.rng.Intn(4)], false)
+					}
+				}
+				for cur > target {
+					press(prevs[c.rng.Intn(4)], false)
+				}
+				for cur < target {
+					press(nexts[c.rng.Intn(4)], true)
+				}
+				switch combo / 3 {
+				case 0:
+					s.keys = append(s.keys, []byte{'\r'})
+				case 1:
+					s.keys, cur = append(s.keys, []byte{0x03}), 0
+				default:
+					s.keys, cur = append(s.keys, []byte{'q'}), 2
+				}
+				s.choice = cur
+				s.del = cur == 1
+			}
 			s.dir = c.rng.Intn(2)
 			if counts[s.dir] > 0 {
 				s.idx = c.rng.Intn(counts[s.dir] + 1)
 			}
 			s.preexist = c.rng.Intn(2) == 0
+			if s.who == "client-after-continue" {
+				s.del = (k/5)%2 == 1
+				// early in the data direction, so that much of the transfer is left after the continue
+				s.dir = dirS2C
+				if cfg.upload {
+					s.dir = dirC2S
+				}
+				s.idx = counts[s.dir]/6 + c.rng.Intn(counts[s.dir]/6+1)
+			}
+			if pr := os.Getenv("VERIF_STOP_PROBE"); pr != "" {
+				// investigation aid: VERIF_STOP_PROBE="who dir idx" pins the stop of every case
+				fmt.Sscanf(pr, "%s %d %d", &s.who, &s.dir, &s.idx)
+				s.del = false
+			}
 			s.desc = fmt.Sprintf("stop by %s delete=%v at %s write #%d/%d preexisting=%v :: %s", s.who, s.del,
 				[]string{"c2s", "s2c"}[s.dir], s.idx, counts[s.dir], s.preexist, describeCfg(cfg))
+			if s.who == "client-keys" {
+				s.desc += fmt.Sprintf(" keys=%q selects entry %d", s.keys, s.choice)
+			}
 			cases = append(cases, s)
 		}
 	}
@@ -148,7 +211,9 @@ func genStop(c *ctx) {
 		var runMu sync.Mutex
 		cfg.onStart = func(r *e2eRun) { runMu.Lock(); run = r; runMu.Unlock() }
 		var stopAt time.Time
-		cfg.hook = atWriteSync(s.dir, s.idx, func() {
+		var keysMu sync.Mutex
+		var throttle atomic.Int64 // milliseconds every further write of the link takes
+		inner := atWriteSync(s.dir, s.idx, func() {
 			for k := 0; k < 2000; k++ {
 				runMu.Lock()
 				r := run
@@ -169,6 +234,46 @@ func genStop(c *ctx) {
 							}
 							r.cliIn.Write([]byte{'\r'})
 						}()
+					case "client-keys":
+						// a slow link from here on: the legacy protocols go on sending while the question
+						// is open, the transfer must not be over before the last key is typed
+						throttle.Store(60)
+						stopAt = time.Time{}
+						go func() {
+							r.cliIn.Write([]byte{0x03})
+							time.Sleep(250 * time.Millisecond)
+							for _, k := range s.keys[:len(s.keys)-1] {
+								r.cliIn.Write(k)
+								time.Sleep(40 * time.Millisecond)
+							}
+							if s.choice != 2 {
+								keysMu.Lock()
+								stopAt = time.Now()
+								keysMu.Unlock()
+							}
+							r.cliIn.Write(s.keys[len(s.keys)-1])
+						}()
+					case "client-after-continue":
+						// Ctrl-C, a long think, continue - and shortly afterwards the real stop; from the
+						// first Ctrl-C on the link is slow, so that the second one lands inside the transfer
+						throttle.Store(25)
+						stopAt = time.Time{}
+						go func() {
+							r.cliIn.Write([]byte{0x03})
+							time.Sleep(2700 * time.Millisecond) // more than half the server's timeout
+							r.cliIn.Write([]byte{'q'})
+							time.Sleep(200 * time.Millisecond)
+							r.cliIn.Write([]byte{0x03})
+							time.Sleep(200 * time.Millisecond)
+							if s.del {
+								r.cliIn.Write([]byte{'j'})
+								time.Sleep(40 * time.Millisecond)
+							}
+							keysMu.Lock()
+							stopAt = time.Now()
+							keysMu.Unlock()
+							r.cliIn.Write([]byte{'\r'})
+						}()
 					default:
 						r.cmd.Process.Signal(syscall.SIGINT)
 					}
@@ -177,8 +282,24 @@ func genStop(c *ctx) {
 				time.Sleep(time.Millisecond)
 			}
 		})
+		cfg.hook = func(d, i int, b []byte) e2eAction {
+			if s.who == "client-after-continue" && d == s.dir && i >= s.idx && !bytes.Contains(b, []byte("#DATA:")) {
+				// this scenario is about a pause inside the data phase: with a chunk on its way
+				// whose acknowledgement is read only after the continue
+				return e2eAction{}
+			}
+			a := inner(d, i, b)
+			if ms := throttle.Load(); ms > 0 {
+				time.Sleep(time.Duration(ms) * time.Millisecond)
+			}
+			return a
+		}
 		t0 := time.Now()
 		res := runTransfer(cfg, s.tops, dest)
+		keysMu.Lock()
+		stopSeen := stopAt
+		keysMu.Unlock()
+		stopAt = stopSeen
 		if !stopAt.IsZero() {
 			s.dur = time.Since(stopAt)
 		} else {
@@ -208,13 +329,29 @@ func genStop(c *ctx) {
 				}
 			}
 		}
+		if !s.del && stopped == "Stopped and deleted" {
+			s.bad = append(s.bad, "deleted-without-request: the user chose a plain stop (or to continue), shown: Stopped and deleted")
+		}
+		if s.who == "client-keys" && s.outcome != "hung" {
+			want := []string{"Stopped", "Stopped and deleted", "success"}[s.choice]
+			if s.outcome != want && s.outcome != "success" {
+				s.bad = append(s.bad, fmt.Sprintf("wrong-choice: the keys select entry %d (%s), the transfer ended as %q", s.choice, want, s.outcome))
+			}
+		}
 		if !stopAt.IsZero() && s.outcome == "error" {
 			// each side reports that it was stopped (or success): any other final message after a
 			// delivered stop means a side was not told / did not notice
 			s.bad = append(s.bad, fmt.Sprintf("not-reported-as-stopped: after the stop the transfer ended with %q", tailStr(shown, 200)))
 		}
 		if !stopAt.IsZero() && s.dur > 8*time.Second {
-			s.bad = append(s.bad, fmt.Sprintf("slow-stop: both sides needed %.1fs after the stop", s.dur.Seconds()))
+			kind := "slow-stop"
+			if s.cfg.tunnel && s.who == "server" && (strings.Contains(res.serverOut, "#fail:") || strings.Contains(res.serverOut, "#FAIL:")) {
+				// the server was stopped after the tunnel greeting but before it had read the ACT: it
+				// still talks in-band, the client already listens to the tunnel only (known finding)
+				kind = "tunnel-server-stopped-before-act"
+			}
+			s.bad = append(s.bad, fmt.Sprintf(kind+": both sides needed %.1fs after the stop (client %.1fs, server %.1fs after the start); shown %q",
+				s.dur.Seconds(), res.clientDur.Seconds(), res.serverDur.Seconds(), tailStr(shown, 300)))
 		}
 		// success only if everything is complete and identical
 		if saved {
@@ -285,6 +422,9 @@ func genStop(c *ctx) {
 	})
 	for _, s := range cases {
 		c.note(true, s.desc+" => "+s.outcome+fmt.Sprintf(" (%.2fs)", s.dur.Seconds()))
+		if os.Getenv("VERIF_DEBUG") != "" {
+			fmt.Fprintf(os.Stderr, "%s => %s (%.2fs)\n", s.desc, s.outcome, s.dur.Seconds())
+		}
 		c.count("outcome:" + s.outcome)
 		c.count("who:" + s.who)
 		if len(s.bad) > 0 {
